@@ -4,7 +4,7 @@
    checks/c10.py).  Only final theorems here; proofs are in DnsWfProofs.v / DnsEmitProofs.v /
    DnsAnswerProofs.v. *)
 From Coq Require Import List NArith Arith Bool Lia.
-From Iodine Require Import Base Codec Hostname DnsName DnsMsg DnsWf DnsWfProofs DnsEmitProofs DnsAnswerProofs.
+From Iodine Require Import Base Codec Hostname DnsName DnsMsg DnsWf DnsWfProofs DnsEmitProofs DnsNameencProofs DnsAnswerProofs DnsMxProofs.
 Import ListNotations.
 Local Open Scope N_scope.
 
@@ -53,21 +53,41 @@ Qed.
                            TXT: RDATA non-empty and tiled by its length-prefixed strings.
    (RDLENGTH = actual data size and the section counts are part of wf_msg's acceptance.) *)
 
-Theorem C10_answer_wf_partial : forall ls q p downenc td,
+Theorem C10_answer_wf : forall ls q p downenc td,
   wf_labels ls -> ls <> [] -> q_name q = name_of ls -> q_id q < 65536 ->
-  (q_type q = T_NULL \/ q_type q = T_PRIVATE \/ q_type q = T_TXT \/ q_type q = T_CNAME \/ q_type q = T_A) ->
+  (q_type q = T_NULL \/ q_type q = T_PRIVATE \/ q_type q = T_TXT \/ q_type q = T_CNAME \/ q_type q = T_A \/
+   q_type q = T_MX \/ q_type q = T_SRV) ->
   (length p <= 4098)%nat ->
   exists m td' msg, write_dns q p downenc td = (Some m, td') /\ wf_msg m = Some msg /\ answer_ok q ls msg.
 Proof.
   intros ls q p downenc td Hwf Hne Hn Hid Hty Hp.
   destruct t_private_facts as [Hlt [Hop1 Hop2]].
-  destruct Hty as [Hty|[Hty|[Hty|Hty]]].
+  destruct Hty as [Hty|[Hty|[Hty|[Hty|[Hty|Hty]]]]].
   - apply answer_wf_opaque; try assumption; rewrite Hty; [unfold T_NULL; lia|exact Hop2].
   - apply answer_wf_opaque; try assumption; rewrite Hty; assumption.
   - apply answer_wf_txt; assumption.
-  - apply answer_wf_cname; assumption.
+  - apply answer_wf_cname; try assumption. left; exact Hty.
+  - apply answer_wf_cname; try assumption. right; exact Hty.
+  - apply answer_wf_mx; assumption.
 Qed.
-Print Assumptions C10_answer_wf_partial.
+Print Assumptions C10_answer_wf.
+
+(* the payload is arbitrary: no bytes_ok hypothesis is needed (NUL and '.' bytes of the payload
+   never reach a name; raw types carry them opaquely) *)
+
+(* non-vacuity: a CNAME answer whose single record carries an encoded name *)
+Example C10_answer_wf_example :
+  let q := {| q_name := name_of [[112; 97; 113]; [116]; [99; 111; 109]]; q_type := T_MX; q_id := 65535 |} in
+  exists m, fst (write_dns q (repeat 255 400) 86 (0, 0)%nat) = Some m /\
+            option_map (fun msg => (length (m_answers msg), map rr_type (m_answers msg))) (wf_msg m) = Some (2%nat, [15; 15]).
+Proof. eexists. split; vm_compute; reflexivity. Qed.
+
+(* the root question is outside the theorem (ls <> []): the owner pointer 0xC00C would then point
+   at the root byte, which is not a label start; the server never answers the root name
+   (query_datalen fails for it) *)
+Example C10_answer_root_not_wf :
+  exists m, fst (write_dns {| q_name := []; q_type := T_NULL; q_id := 1 |} [1; 2] 84 (0, 0)%nat) = Some m /\ wf_msg m = None.
+Proof. eexists. split; vm_compute; reflexivity. Qed.
 
 (* ---- C10_spec_rejects: the specification parser is not vacuous ---------------------------- *)
 
